@@ -50,6 +50,10 @@ pub enum ROp {
     Bwd,
     /// seek(probe key) followed by moves (true = next, false = prev)
     Seek { k: u16, moves: Vec<bool> },
+    /// seek_to_first, next … off the end, then - on the SAME iterator - `back` prev moves: the first
+    /// of them must reach the greatest key whose insert had returned before it began (an append may
+    /// complete between running off the end and stepping back)
+    FwdThenBack { back: u8 },
 }
 
 #[derive(Clone, Debug, PartialEq, Eq, Serialize, Deserialize)]
@@ -88,6 +92,7 @@ fn rop() -> impl Strategy<Value = ROp> {
         3 => Just(ROp::Fwd),
         2 => Just(ROp::Bwd),
         3 => (any::<u16>(), prop::collection::vec(any::<bool>(), 0..5)).prop_map(|(k, moves)| ROp::Seek { k, moves }),
+        3 => (1u8..4).prop_map(|back| ROp::FwdThenBack { back }),
     ]
 }
 
@@ -513,6 +518,26 @@ fn reader_program(sh: &Shared, ops: &[ROp], probes: &[u64]) {
             ROp::Contains(i) => check_contains(sh, "contains", probes[sel(*i, probes.len())]),
             ROp::Fwd => iterate_fwd(sh, "fwd").map(|_| ()),
             ROp::Bwd => iterate_bwd(sh, "bwd").map(|_| ()),
+            ROp::FwdThenBack { back } => (|| {
+                let mut cur = Cursor::new(sh, "fwd-then-back");
+                let mut at = cur.mv(Mv::First)?;
+                let mut steps = 0;
+                while at.is_some() {
+                    steps += 1;
+                    if steps > sh.keys.len() + 1 {
+                        sh.fail("fwd-then-back:order", "iteration yields more elements than keys exist".to_string());
+                        return Err(());
+                    }
+                    at = cur.mv(Mv::Next)?;
+                }
+                cur.op = "prev-after-end";
+                for _ in 0..*back {
+                    if cur.mv(Mv::Prev)?.is_none() {
+                        break;
+                    }
+                }
+                Ok(())
+            })(),
             ROp::Seek { k, moves } => (|| {
                 let mut cur = Cursor::new(sh, "seek");
                 let mut at = cur.mv(Mv::Seek(probes[sel(*k, probes.len())]))?;
